@@ -182,6 +182,18 @@ fn main() {
                             }
                         }
                     }
+                    // every wire of the rows that activate no selector (the accumulator rows the
+                    // range / logic / fixed-base widgets read as "next row"): only the copy
+                    // constraints bind them
+                    let mut anchors = 0usize;
+                    for r in first..rows {
+                        if bsnap.rows[r].selectors.iter().all(|q| *q == BlsScalar::zero()) && anchors < 3 * n {
+                            anchors += 1;
+                            for k in 0..4 {
+                                pos.push((r, k));
+                            }
+                        }
+                    }
                     if rows > first {
                         let mut s = seed ^ 0x51ed270b7f4a7c15u64.wrapping_mul(n_events as u64 + 1);
                         for _ in 0..n {
